@@ -3418,11 +3418,12 @@ class SEVM:
                     offset = ex.int_of(state.pop(), "symbolic RETURNDATACOPY offset")
                     size: int = ex.int_of(state.pop(), "symbolic RETURNDATACOPY size")
 
-                    if size:
-                        # no need to check for a huge size because reading out of bounds reverts
-                        if offset + size > ex.returndatasize():
-                            raise OutOfBoundsRead("RETURNDATACOPY out of bounds")
+                    # reading out of bounds is an exceptional halt even for size 0 (EIP-211),
+                    # so there is no need to check for a huge size
+                    if offset + size > ex.returndatasize():
+                        raise OutOfBoundsRead("RETURNDATACOPY out of bounds")
 
+                    if size:
                         data: ByteVec = ex.returndata().slice(offset, offset + size)
                         state.set_mslice(loc, data)
 
